@@ -178,6 +178,7 @@ def run(tier, seed, replay=None):
             docs.append(("base", b))
             docs += cc.mutants(r, b, per)
         docs += cc.lb_graphs(r, 150 if tier == "quick" else 1500)
+        docs += cc.access_log_docs()
         for what, f in DEEP_FILTERS:
             docs.append(("filter with " + what, {"apiVersion": "v1alpha", "kind": "ProxyDefinition", "listeners": [], "connectors": [{"name": "direct"}],
                                                  "rules": [{"filter": f, "target": "direct"}]}))
@@ -226,7 +227,8 @@ def run(tier, seed, replay=None):
         if not o.startswith("LEAF"):
             rep.fail("C18: model: accepted table but the selection chain gives %s (%s)" % (o, l), {"kind": "failing-input", "line": l})
     # ---- (3) the real binary ---------------------------------------------------------------
-    sample = [("base", b) for b in cc.bases(crt, key)] + r.sample(docs, min(len(docs), 24 if tier == "quick" else 200))
+    # the access-log writer runs as a task of its own: what it does with an unusable path only shows in the real binary
+    sample = [("base", b) for b in cc.bases(crt, key)] + cc.access_log_docs() + r.sample(docs, min(len(docs), 24 if tier == "quick" else 200))
     tdir = os.path.join(CACHE, "e2e", "c18-%d" % os.getpid())
     os.makedirs(tdir, exist_ok=True)
 
@@ -238,7 +240,12 @@ def run(tier, seed, replay=None):
         env["RUST_LOG"] = "error"
         try:
             p = subprocess.run([driver, "-c", path, "-t", "1"], env=env, capture_output=True, text=True, timeout=30, cwd=tdir)
-            return p.returncode, (p.stdout + p.stderr)[-300:]
+            out = p.stdout + p.stderr
+            if "panicked at" in out:
+                # the hook build unwinds; the shipped profile aborts on panic
+                i = out.find("panicked at")
+                return "panic", out[max(0, i - 80):i + 220]
+            return p.returncode, out[-300:]
         except subprocess.TimeoutExpired:
             return "timeout", ""
     with concurrent.futures.ThreadPoolExecutor(NCPU) as ex:
@@ -256,6 +263,7 @@ def run(tier, seed, replay=None):
                      {"kind": "failing-input", "docs": [dict(what=what, doc=d)]})
     # accepted documents, started for real: ports are rewritten to free ones, then one probe per TCP listener
     started = 0
+    accepted.sort(key=lambda wd: not wd[0].startswith("accessLog"))
     for what, d in accepted[: (6 if tier == "quick" else 40)]:
         d2 = json.loads(json.dumps(d))
         try:
